@@ -8,7 +8,7 @@ import re
 _tok = re.compile(r'''\s*(?:
     (?P<str>"(?:[^"\\]|\\.)*") |
     (?P<int>-?\d+) |
-    (?P<sym><<|>>|\|->|:>|@@|[\[\]{}(),]) |
+    (?P<sym><<|>>|\|->|:>|@@|\.\.|[\[\]{}(),]) |
     (?P<id>[A-Za-z_][A-Za-z0-9_!]*)
 )''', re.X)
 
@@ -51,6 +51,10 @@ class _P:
         if k == 'str':
             return bytes(x[1:-1], 'utf-8').decode('unicode_escape')
         if k == 'int':
+            if self.peek()[1] == '..':   # interval a..b as TLC prints integer ranges
+                self.next()
+                k2, y = self.next()
+                return {'__set__': list(range(int(x), int(y) + 1))}
             return int(x)
         if k == 'id':
             if x == 'TRUE':
